@@ -7,12 +7,14 @@ package prog
 import (
 	"fmt"
 	"go/ast"
+	"go/parser"
 	"go/token"
 	"go/types"
 	"os"
 	"sort"
 	"strings"
 
+	"golang.org/x/tools/go/ast/astutil"
 	"golang.org/x/tools/go/callgraph"
 	"golang.org/x/tools/go/callgraph/cha"
 	"golang.org/x/tools/go/callgraph/vta"
@@ -45,6 +47,7 @@ type Program struct {
 	Funcs  map[string]*Func
 	ByObj  map[*types.Func]*Func
 	Tests  bool
+	OrigDir string // the tree as given, when Dir is a normalised copy of it
 
 	ssaProg  *ssa.Program
 	ssaPkgs  []*ssa.Package
@@ -59,6 +62,52 @@ type Program struct {
 // Load type-checks ./... under dir (cgo enabled). It fails (error) on any
 // package error: a tree that does not type-check is not judged.
 func Load(dir string, tests bool) (*Program, error) {
+	ndir, notes, dead, cleanup := Normalize(dir)
+	cleanups = append(cleanups, cleanup)
+	if ndir != dir {
+		p, err := loadDir(ndir, tests, dead)
+		if err == nil {
+			p.LoadNote = append(p.LoadNote, notes...)
+			p.LoadNote = append(p.LoadNote, "analysed a normalised copy of the tree (positions refer to it)")
+			p.OrigDir = dir
+			return p, nil
+		}
+		p, err2 := loadDir(dir, tests, nil)
+		if p != nil {
+			p.LoadNote = append(p.LoadNote, "normalised copy did not type-check ("+err.Error()+"): analysed the tree as it is")
+		}
+		return p, err2
+	}
+	return loadDir(dir, tests, nil)
+}
+
+var cleanups []func()
+
+// CleanupAll removes the scratch copies made by Normalize.
+func CleanupAll() {
+	for _, c := range cleanups {
+		c()
+	}
+	cleanups = nil
+}
+
+// incDecToAssign rewrites `x++` / `x--` into `x += 1` / `x -= 1` in place
+// (positions unchanged), so that rules see one form of a counter update.
+func incDecToAssign(f *ast.File) {
+	astutil.Apply(f, func(c *astutil.Cursor) bool {
+		if id, ok := c.Node().(*ast.IncDecStmt); ok {
+			tok := token.ADD_ASSIGN
+			if id.Tok == token.DEC {
+				tok = token.SUB_ASSIGN
+			}
+			c.Replace(&ast.AssignStmt{Lhs: []ast.Expr{id.X}, TokPos: id.TokPos, Tok: tok,
+				Rhs: []ast.Expr{&ast.BasicLit{ValuePos: id.TokPos + 1, Kind: token.INT, Value: "1"}}})
+		}
+		return true
+	}, nil)
+}
+
+func loadDir(dir string, tests bool, dead map[string]bool) (*Program, error) {
 	os.Unsetenv("GOWORK")
 	fset := token.NewFileSet()
 	cfgp := &packages.Config{
@@ -68,6 +117,13 @@ func Load(dir string, tests bool) (*Program, error) {
 		Dir:   dir,
 		Fset:  fset,
 		Tests: tests,
+		ParseFile: func(fset *token.FileSet, filename string, src []byte) (*ast.File, error) {
+			f, err := parser.ParseFile(fset, filename, src, parser.AllErrors|parser.ParseComments)
+			if f != nil {
+				incDecToAssign(f)
+			}
+			return f, err
+		},
 		Env: append(os.Environ(), "GOFLAGS=-mod=mod", "GOPROXY=off", "GOSUMDB=off",
 			"GOTOOLCHAIN=local", "GOWORK=off", "CGO_ENABLED=1"),
 	}
@@ -135,16 +191,93 @@ func Load(dir string, tests bool) (*Program, error) {
 				if fd.Name.Name == "init" || fd.Name.Name == "_" {
 					fn.Key = fmt.Sprintf("%s#%s", fn.Key, p.Pos(fd.Pos()))
 				}
+				if dead[fn.Key] {
+					// a new helper whose every call was inlined by Normalize: dead code
+					continue
+				}
 				p.Funcs[fn.Key] = fn
 				p.ByObj[obj] = fn
 			}
 		}
 	}
+	p.aliasRenamed()
 	return p, nil
 }
 
+// renamed maps the key of a function that is new relative to KnownFuncs to the
+// key of the (now missing) known function it evidently is: same package, same
+// receiver type, identical signature, and the only such candidate.
+var renamed = map[string]string{}
+
+func (p *Program) aliasRenamed() {
+	loadedPkg := map[string]bool{}
+	for _, pk := range p.Pkgs {
+		loadedPkg[pk.Name] = true
+	}
+	prefix := func(k string) string { return k[:strings.LastIndex(k, ".")+1] }
+	var missing []string
+	for k := range KnownFuncs {
+		if p.Funcs[k] == nil && loadedPkg[k[:strings.Index(k, ".")]] {
+			missing = append(missing, k)
+		}
+	}
+	if len(missing) == 0 {
+		return
+	}
+	sort.Strings(missing)
+	claimed := map[string]string{}
+	for _, m := range missing {
+		var cands []string
+		for k, f := range p.Funcs {
+			if KnownFuncs[k] != "" || f.IsTestFile() || strings.Contains(k, "#") || prefix(k) != prefix(m) {
+				continue
+			}
+			if sigString(f.Obj) == KnownFuncs[m] {
+				cands = append(cands, k)
+			}
+		}
+		if len(cands) == 1 {
+			if _, dup := claimed[cands[0]]; dup {
+				claimed[cands[0]] = "" // ambiguous
+			} else {
+				claimed[cands[0]] = m
+			}
+		}
+	}
+	for nk, ok := range claimed {
+		if ok == "" {
+			continue
+		}
+		renamed[nk] = ok
+		f := p.Funcs[nk]
+		delete(p.Funcs, nk)
+		f.Key = ok
+		p.Funcs[ok] = f
+		p.LoadNote = append(p.LoadNote, "function "+nk+" taken as the renamed "+ok+" (same receiver and signature, the only candidate)")
+	}
+}
+
+func sigString(obj *types.Func) string {
+	sig, _ := obj.Type().(*types.Signature)
+	if sig == nil {
+		return "?"
+	}
+	return types.TypeString(sig, func(p *types.Package) string { return p.Name() })
+}
+
+// SigString is exported for the generator of KnownFuncs.
+func SigString(obj *types.Func) string { return sigString(obj) }
+
 // FuncKey names a function object: pkgname.Recv.Name or pkgname.Name.
 func FuncKey(obj *types.Func) string {
+	k := funcKey0(obj)
+	if o, ok := renamed[k]; ok {
+		return o
+	}
+	return k
+}
+
+func funcKey0(obj *types.Func) string {
 	if obj == nil {
 		return ""
 	}
